@@ -14,6 +14,7 @@ EXPLANATION = (
     '(R4 also: Message::set_body installs exactly the body it is given and every content setter builds the body from the new value; Message::try_clone returns None when the body cannot be cloned, never a body-less message.) '
     '(R4 also: new_non_debugable declares size_of::<T>() of the value type; R8, shared with C07.R7) channels charge the declared length undiminished. '
     '(R8 also: queues are charged and un-charged with Message::length, shared with C07.R3.) '
+    "(R8 also, shared with C07.R2: the queue admission compares with Message::length.) "
     "Decides these necessary conditions only; not value equality / drop counts over operation sequences.")
 ASSUMPTIONS = ["TypeId::of::<T>() identifies T", "Box::into_raw/from_raw round-trip"]
 
